@@ -157,6 +157,12 @@ func (g *typeGen) desc(t *rapid.T, depth, ctx int) Desc {
 			// wide elements: bounds that admit a few of them
 			mx = pick[uint64](t, "widemax", w, 2*w, 4*w+3, 65535, 70000, 1<<24-1, 1<<32)
 			mn = pick[uint64](t, "widemin", 0, 0, 0, 1, w)
+			if mx < w {
+				mx = w
+			}
+			if mn > mx {
+				mn = mx
+			}
 		}
 		return Desc{K: KVec, Min: mn, Max: mx, Elem: &e, TagRev: rapid.IntRange(0, 4).Draw(t, "tagrev") == 0}
 	case KStruct:
@@ -295,6 +301,9 @@ func genBytes(t *rapid.T, n int) Hex {
 }
 
 func (g *valGen) length(t *rapid.T, mn, mx uint64) uint64 {
+	if mn >= mx {
+		return mn
+	}
 	hi := mx
 	if hi > mn+g.cap {
 		hi = mn + g.cap
